@@ -32,8 +32,9 @@ struct InsSpec
 {
     int id, kon, koff, drum, noff, flags, fbalg, veloff, lfosens;
     int tl[4], mul[4];
+    int ops[4][7]; bool hasOps;
     InsSpec() : id(1), kon(500), koff(300), drum(0), noff(0), flags(0), fbalg(0x07), veloff(0), lfosens(0)
-    { for(int i = 0; i < 4; ++i) { tl[i] = (i == 3) ? 0 : 127; mul[i] = 1; } tl[0] = 20; tl[1] = 30; tl[2] = 40; tl[3] = 10; }
+    { for(int i = 0; i < 4; ++i) { tl[i] = (i == 3) ? 0 : 127; mul[i] = 1; } tl[0] = 20; tl[1] = 30; tl[2] = 40; tl[3] = 10; hasOps = false; memset(ops, 0, sizeof ops); }
 };
 
 static inline InsSpec insFromJson(const JV &j)
@@ -44,6 +45,7 @@ static inline InsSpec insFromJson(const JV &j)
     s.fbalg = (int)j.get("fbalg", 7); s.veloff = (int)j.get("veloff", 0); s.lfosens = (int)j.get("lfosens", 0);
     if(j.has("tl")) for(int i = 0; i < 4; ++i) s.tl[i] = (int)j["tl"][i].num();
     if(j.has("mul")) for(int i = 0; i < 4; ++i) s.mul[i] = (int)j["mul"][i].num();
+    if(j.has("ops")) { s.hasOps = true; for(int i = 0; i < 4; ++i) for(int k = 0; k < 7; ++k) s.ops[i][k] = (int)j["ops"].a[(size_t)i].a[(size_t)k].num(); }
     return s;
 }
 
@@ -69,6 +71,13 @@ static inline void fillInstrument(OPN2_Instrument &o, const InsSpec &s)
     }
     o.operators[1].decay2_70 = (OPN2_UInt8)(s.id & 0x1F);
     o.operators[2].decay2_70 = (OPN2_UInt8)((s.id >> 5) & 0x1F);
+    // raw operator bytes (extreme-value instruments of C02): no id is encoded then
+    if(s.hasOps)
+        for(int op = 0; op < 4; ++op)
+        {
+            OPN2_UInt8 *b = (OPN2_UInt8 *)&o.operators[op];
+            for(int k = 0; k < 7; ++k) b[k] = (OPN2_UInt8)s.ops[op][k];
+        }
     o.delay_on_ms = (OPN2_UInt16)s.kon;
     o.delay_off_ms = (OPN2_UInt16)s.koff;
 }
